@@ -57,10 +57,12 @@ TRUSTED = [
     "modelled, not verified: a stream that meets EOF or an I/O error closes itself and raises EOFError "
     "(rpyc/core/stream.py: SocketStream/PipeStream read/write; exercised, not modelled, by the real-transport runs); "
     "rpyc/lib/compat.py PollingPoll mask handling (decides whether end-of-stream is noticed at all) likewise",
-    "three facts about the code are measured by harness/gen_proto.py on the live classes and enter the model as "
-    "generated constants with named proof obligations: cleanup_idempotent, cleanup_survives_channel_close_error "
-    "(and C08's decode_guarded); the shapes of close/_cleanup/serve are otherwise tied to the source by the "
-    "behavioural correspondence only",
+    "four facts about the code are measured by harness/gen_proto.py on the live classes and enter the model as "
+    "generated constants with named proof obligations (restated in the audited namespace as obligation_*): "
+    "cleanup_idempotent, cleanup_survives_channel_close_error (all three tables; raising hook; raising before_closed), "
+    "dispatch_closes_on_eof, box_refuses_on_closed_channel (and C08's decode_guarded); the shapes of "
+    "close/_cleanup/serve are otherwise tied to the source by the behavioural correspondence only; the harness wraps "
+    "Connection._dispatch during a run (observation only) to know which writes happen inside the delivery of a response",
     "two threads racing close() against a received close: covered as the orders of the events (sequential automaton); "
     "inside close() the flag is set before the hook runs — a second thread or the before_closed callback can "
     "observe `closed` with the hook not yet run; claims are made at API-call boundaries",
@@ -75,17 +77,28 @@ ASSUMPTIONS = [
     "a user hook (before_closed, on_disconnect) that raises, or a stream whose own close() raises: the side is clean "
     "all the same, but the request that was blocked when the end was met fails with THAT exception instead of "
     "EOFError (it replaces EOFError inside serve()'s handler); only 'never a value, never hanging' is claimed there",
-    "a failure while a REQUEST is being sent is not 'while serving': the requester gets EOFError and the side is "
-    "closed by its next serve()/close(), not by the failed send (theorem fail_send_request_does_not_close)",
+    "a failure while a REQUEST is being sent from the application's own call is not 'while serving': the requester gets "
+    "EOFError and the side is closed by its next serve()/close(), not by the failed send (an `example` in Props/C11.lean "
+    "shows the state). A request written from INSIDE the delivery of a response (the class inspection of a first "
+    "reference in _unbox, a result callback) IS inside serve(): its failure closes the side "
+    "(fail_send_nested_leads_to_closed, obligation_dispatch_closes_on_eof)",
 ]
 EXPLANATION = ("Theorems over ALL finite event sequences of the lifecycle automaton of one side (local close in two "
                "steps so that anything can happen inside before_closed, close received, EOF/error while receiving, "
-               "failure sending a request / a reply, serve_all ending, requests issued / waited / answered / timing out, "
-               "close again): hook at most once; closed (outside a close() call) implies hook exactly once, tables "
-               "cleared and nothing added since, channel closed; close again changes nothing; each of local close, "
-               "received close, EOF while serving, failure while replying leads to closed and releases every blocked "
-               "waiter with EOFError; no requester is ever given a value the peer did not send; after the end no event "
-               "gives a value or blocks anybody, pending and new requests fail at once.")
+               "failure sending a request at top level / nested in a response's delivery / a reply, serve_all ending, "
+               "requests issued / waited / answered / timing out, close again; for sides whose disconnect hook and/or "
+               "whose stream's close() raise) and of the PAIR of two such sides joined by the channel: hook at most once; "
+               "closed (outside a close() call) implies hook exactly once, tables cleared and nothing added since, "
+               "channel closed; close again changes nothing (definitional: restates `if self._closed: return`); each of "
+               "local close, received close, EOF while serving, failure while replying, failure of a request nested in a "
+               "delivery, serve_all ending leads to closed; the ends met INSIDE serve() release every blocked waiter at "
+               "once WITHOUT A VALUE (EOFError, or what close() raised in its place when a user hook or the stream's "
+               "close() raises), while after a local close a waiter that is still blocked is released by its next "
+               "serve() (blocked_waiter_next_serve_releases); no requester is ever given a value the peer did not write "
+               "(two-sided: value_was_written_by_peer); after the end no event gives a value or blocks anybody, pending "
+               "and new requests fail at once; on the pair, a closed side ends its peer within (frames in flight + 1) "
+               "serve() calls (assuming the channel law: poll() wakes at end-of-stream). Not looked at: `ready`/`error`/"
+               "add_callback of a result still pending at the end (they are never completed: probed, reported).")
 
 VAL_REF, VAL_EXC, VAL_OTHER = 1, 2, 3
 
